@@ -3,6 +3,7 @@ package rules
 import (
 	"go/token"
 	"go/types"
+	"sort"
 	"strings"
 
 	"golang.org/x/tools/go/ssa"
@@ -663,6 +664,69 @@ func c15(c *Ctx) {
 		}
 		if n < 3 {
 			c.R.Unknown(load.FuncName(bs)+": AddToScheme calls", c.pos(bs.Pos()), "expected the scheme registrations")
+		}
+	}
+
+	c.R.Rule("R15.8", "the conversion of older package metadata to the checked version carries every field the two versions share", 15,
+		"the gates (Crossplane version constraint, dependencies) examine the converted v1 object: a field the converter drops is a constraint that is never checked for v1beta1 / v1alpha1 metadata")
+	for _, pp := range []string{"apis/pkg/meta/v1beta1", "apis/pkg/meta/v1alpha1"} {
+		pkg := c.P.SSAPkgs[xp+pp]
+		if pkg == nil {
+			continue
+		}
+		var names []string
+		for n, m := range pkg.Members {
+			if _, ok := m.(*ssa.Type); ok && strings.HasPrefix(n, "Generated") && strings.HasSuffix(n, "Converter") {
+				names = append(names, n)
+			}
+		}
+		sort.Strings(names)
+		for _, n := range names {
+			t := pkg.Members[n].(*ssa.Type).Type()
+			nt, ok := t.(*types.Named)
+			if !ok {
+				continue
+			}
+			for i := 0; i < nt.NumMethods(); i++ {
+				fn := c.P.SSA.FuncValue(nt.Method(i))
+				if fn == nil || fn.Blocks == nil || len(fn.Params) != 2 || fn.Signature.Results().Len() != 1 {
+					continue
+				}
+				deref := func(t types.Type) *types.Struct {
+					if p, ok := t.Underlying().(*types.Pointer); ok {
+						t = p.Elem()
+					}
+					st, _ := t.Underlying().(*types.Struct)
+					return st
+				}
+				src, dst := deref(fn.Params[1].Type()), deref(fn.Signature.Results().At(0).Type())
+				if src == nil || dst == nil {
+					continue
+				}
+				written := map[string]bool{}
+				for _, b := range fn.Blocks {
+					for _, in := range b.Instrs {
+						if st, ok := in.(*ssa.Store); ok {
+							if fa, ok := st.Addr.(*ssa.FieldAddr); ok && deref(fa.X.Type()) == dst {
+								if _, isConst := st.Val.(*ssa.Const); isConst || cfgx.ZeroRead(st.Val) {
+									continue // a zero value is not the source's field
+								}
+								written[dst.Field(fa.Field).Name()] = true
+							}
+						}
+					}
+				}
+				var missing []string
+				for j := 0; j < dst.NumFields(); j++ {
+					f := dst.Field(j)
+					for k := 0; k < src.NumFields(); k++ {
+						if src.Field(k).Name() == f.Name() && !written[f.Name()] {
+							missing = append(missing, f.Name())
+						}
+					}
+				}
+				c.R.Check(len(missing) == 0, load.FuncName(fn)+": carries shared fields", c.pos(fn.Pos()), "every field the source and the target type share is assigned", "the conversion does not assign "+strings.Join(missing, ", ")+": what the older metadata declares there is lost before the gates look at it")
+			}
 		}
 	}
 
